@@ -22,27 +22,20 @@ struct hashfn;
 extern int __CPROVER_file_local_crypt_c_check_badsalt_chars(const char *);
 extern const struct hashfn *__CPROVER_file_local_crypt_c_get_hashfn(const char *);
 
-/* The caller's object as the method sees it: the 384-byte output field followed
-   by the application-owned fields (same layout as the head of struct crypt_data,
-   so an overflow of output lands in setting exactly as in the real object).  The
-   scratch area is a separate aligned object of the real size (the 30 KB internal
-   array inside a 32 KB struct makes CBMC's byte-update lowering recurse ~23000
-   frames deep and crash).  */
-struct vf_data
-{
-  char output[CRYPT_OUTPUT_SIZE];
-  char setting[CRYPT_OUTPUT_SIZE];
-  char input[CRYPT_MAX_PASSPHRASE_SIZE];
-  char reserved[CRYPT_DATA_RESERVED_SIZE];
-  char initialized;
-};
-struct vf_data nondet_vf_data(void);
+/* The method receives exactly two writable objects, as from do_crypt: the
+   384-byte output field and the scratch area.  They are modelled as two
+   separate objects of the real sizes, so *any* write outside them - into the
+   application-owned setting/input fields that follow output in struct
+   crypt_data, or anywhere else - is an out-of-object access that CBMC's pointer
+   checks report (this is how the sha1crypt overflow F1 shows up).  Embedding
+   them in one 32 KB struct makes CBMC lower every byte write over the whole
+   struct (11M clauses, and a 23000-frame recursion crash with the real type). */
+static char vf_output[CRYPT_OUTPUT_SIZE], vf_output0[CRYPT_OUTPUT_SIZE];
 static _Alignas(16) unsigned char vf_scratch[ALG_SPECIFIC_SIZE];
 
 size_t in_plen, in_slen;
 char in_phrase[MAX_P + 1];
 char in_setting[SCAP];          /* the whole setting incl. prefix, at its placement */
-static struct vf_data cd, cd0;
 
 static int okchar(unsigned char c)
 {
@@ -92,63 +85,59 @@ void harness(void)
   SETTING_PRECOND
 #endif
 
-  /* the data object: arbitrary, except that do_crypt's callers have already
-     stored the failure token in output */
-  cd = nondet_vf_data();
-  cd.output[0] = '*';
-  __CPROVER_assume(cd.output[1] == '0' || cd.output[1] == '1');
-  cd.output[2] = 0;
-  cd0 = cd;
+  /* arbitrary prior contents (previous result, garbage), except that do_crypt's
+     callers have already stored the failure token in output */
+  for (size_t i = 0; i < sizeof vf_output; i++) vf_output[i] = nondet_char();
+  vf_output[0] = '*';
+  __CPROVER_assume(vf_output[1] == '0' || vf_output[1] == '1');
+  vf_output[2] = 0;
+  for (size_t i = 0; i < sizeof vf_output; i++) vf_output0[i] = vf_output[i];
+#ifdef SCRATCH_NONDET
+  for (size_t i = 0; i < SCRATCH_NONDET; i++) vf_scratch[i] = nondet_uchar();
+#endif
 
   errno = 0;
-  METHOD_FN(phrase, in_plen, setting, set_size, (uint8_t *)cd.output, sizeof cd.output,
+  METHOD_FN(phrase, in_plen, setting, set_size, (uint8_t *)vf_output, sizeof vf_output,
             vf_scratch, sizeof vf_scratch);
   int e = errno;
 
-  /* C04: write confinement */
-  for (size_t i = 0; i < sizeof cd.setting; i++)
-    VF_ASSERT(cd.setting[i] == cd0.setting[i], "C04: application-owned setting field unchanged");
-  for (size_t i = 0; i < sizeof cd.input; i++)
-    VF_ASSERT(cd.input[i] == cd0.input[i], "C04: application-owned input field unchanged");
-  for (size_t i = 0; i < sizeof cd.reserved; i++)
-    VF_ASSERT(cd.reserved[i] == cd0.reserved[i], "C04: method does not touch reserved");
-  VF_ASSERT(cd.initialized == cd0.initialized, "C04: method does not touch initialized");
-
-  if (cd.output[0] == '*') {
+  if (vf_output[0] == '*') {
     /* failure */
     VF_ASSERT(e == EINVAL || e == ERANGE || e == ENOMEM, "C05: failing method sets errno to EINVAL, ERANGE or ENOMEM");
-    for (size_t i = 0; i < sizeof cd.output; i++)
-      VF_ASSERT(cd.output[i] == cd0.output[i], "C05: failing method leaves the output (failure token) untouched");
+    for (size_t i = 0; i < sizeof vf_output; i++)
+      VF_ASSERT(vf_output[i] == vf_output0[i], "C05: failing method leaves the output (failure token) untouched");
+#ifndef EXPECT_NO_FAILURE
     VF_WITNESS("method failure");
+#endif
   } else {
-    size_t n = sizeof cd.output;
+    size_t n = sizeof vf_output;
     _Bool seen = 0;
-    for (size_t i = 0; i < sizeof cd.output; i++) {
+    for (size_t i = 0; i < sizeof vf_output; i++) {
       if (!seen) {
-        if (cd.output[i] == 0) { seen = 1; n = i; }
-        else VF_ASSERT(okchar((unsigned char)cd.output[i]), "C06: hash is printable passwd(5)-safe ASCII");
+        if (vf_output[i] == 0) { seen = 1; n = i; }
+        else VF_ASSERT(okchar((unsigned char)vf_output[i]), "C06: hash is printable passwd(5)-safe ASCII");
       } else {
-        VF_ASSERT(cd.output[i] == 0 || cd.output[i] == cd0.output[i], "C09: nothing but the result (and zero fill) is left in output");
+        VF_ASSERT(vf_output[i] == 0 || vf_output[i] == vf_output0[i], "C09: nothing but the result (and zero fill) is left in output");
       }
     }
     VF_ASSERT(seen, "C04: result NUL-terminated inside the 384-byte output field");
     VF_ASSERT(n >= PLEN + HASH_LEN, "C06: result has prefix and a full-length digest");
     for (size_t j = 0; j < PLEN; j++)
-      VF_ASSERT(cd.output[j] == PREFIX_STR[j], "C06: hash begins with the method prefix of the setting");
+      VF_ASSERT(vf_output[j] == PREFIX_STR[j], "C06: hash begins with the method prefix of the setting");
     /* digest: the last HASH_LEN characters, from the method's alphabet */
-    for (size_t i = 0; i < sizeof cd.output; i++)
+    for (size_t i = 0; i < sizeof vf_output; i++)
       if (i < n && i + HASH_LEN >= n)
-        VF_ASSERT(alpha_ok((unsigned char)cd.output[i]), "C06: digest characters are from the method's alphabet");
+        VF_ASSERT(alpha_ok((unsigned char)vf_output[i]), "C06: digest characters are from the method's alphabet");
 #if SEP_DOLLAR
-    VF_ASSERT(n > HASH_LEN && cd.output[n - HASH_LEN - 1] == '$', "C06: digest is preceded by '$'");
+    VF_ASSERT(n > HASH_LEN && vf_output[n - HASH_LEN - 1] == '$', "C06: digest is preceded by '$'");
 #endif
 #ifdef SHAPE_CHECK
     SHAPE_CHECK
 #endif
     /* accepted as a setting, selecting the same method */
-    VF_ASSERT(!__CPROVER_file_local_crypt_c_check_badsalt_chars(cd.output), "C06: hash passes the generic setting filter");
-    VF_ASSERT(__CPROVER_file_local_crypt_c_get_hashfn(cd.output) != 0 &&
-              __CPROVER_file_local_crypt_c_get_hashfn(cd.output) ==
+    VF_ASSERT(!__CPROVER_file_local_crypt_c_check_badsalt_chars(vf_output), "C06: hash passes the generic setting filter");
+    VF_ASSERT(__CPROVER_file_local_crypt_c_get_hashfn(vf_output) != 0 &&
+              __CPROVER_file_local_crypt_c_get_hashfn(vf_output) ==
               __CPROVER_file_local_crypt_c_get_hashfn(setting), "C06: hash selects the same method as the setting");
     VF_WITNESS("method success");
   }
